@@ -1,5 +1,6 @@
 """Calls: builtins, container/string methods, comprehensions, spec builtins, modular contract calls."""
 import ast
+import os
 import z3
 from .vtypes import *  # noqa
 from .state import State, Unsupported, StaleContract, fresh_name, default_of
@@ -171,6 +172,10 @@ class CallMixin:
             pel = st.list_elems(it.ty, it.t)
             st.assume(z3.ForAll([i2], z3.Implies(gi(i2), mf[pel[i2]]), patterns=[pel[i2]]))
         st.ghost["_filter_%d" % getattr(node, "lineno", 0)] = SV(FUN, py=("filteridx", idx, m))
+        if it.ty.kind == "list" and isinstance(node.elt, ast.Name) and isinstance(gen.target, ast.Name) and node.elt.id == gen.target.id:
+            if not hasattr(self, "_filters") or getattr(self, "_filters_owner", None) is not self.cur_contract:
+                self._filters, self._filters_owner = [], self.cur_contract
+            self._filters.append((fel, m, st.list_elems(it.ty, it.t), n, gi))
         return SV(lty, r)
 
     def ev_DictComp(self, node, st, ctx):
@@ -447,16 +452,33 @@ class CallMixin:
     def bi_max(self, node, st, ctx):
         return self._minmax(node, st, ctx, False)
 
+    def spec_sumto(self, node, st, ctx):
+        """sumto(n, (e for x in L if c)): the sum over the first n elements only (a prefix of the full sum)"""
+        n = self.num(self.ev(node.args[0], st, ctx), st).t
+        return self.sum_core(node.args[1], node, st, ctx, upto=n)
+
     def bi_sum(self, node, st, ctx):
         (a,) = node.args
+        return self.sum_core(a, node, st, ctx)
+
+    def sum_core(self, a, node, st, ctx, upto=None):
         if not isinstance(a, (ast.GeneratorExp, ast.ListComp)):
             raise Unsupported("sum of non-comprehension")
         vars_, g, elt, it = self.comp_parts(a, st, ctx)
-        if it.ty.kind not in ("list", "strlist"):
+        if it.ty.kind not in ("list", "strlist", "range"):
             raise Unsupported("sum over %r" % it.ty)
         e = self.num(elt, st)
         j = vars_[0]
-        n = self.length(it, st)
+        if it.ty.kind == "range":
+            lo, hi = it.py
+            if not (z3.is_int_value(z3.simplify(lo)) and z3.simplify(lo).as_long() == 0):
+                raise Unsupported("sum over a range that does not start at 0")
+            n = z3.If(hi < 0, 0, hi)
+        else:
+            n = self.length(it, st)
+        full_n = n
+        if upto is not None:
+            n = upto
         # the partial-sum function is named after the summand (with the bound variable renamed canonically), so that the
         # same sum written in the code and in a specification is the same term
         import hashlib
@@ -475,13 +497,70 @@ class CallMixin:
         for (ps2, (j2, s2), n2) in self._psums:
             if ps2.eq(ps):
                 continue
-            q = z3.Int(fresh_name("q"))
-            self.sum_lemmas.append((ps.name(), ps2.name(), z3.Implies(
-                z3.And(n == n2, z3.ForAll([q], z3.Implies(z3.And(0 <= q, q < n), z3.substitute(summand, (j, q)) == z3.substitute(s2, (j2, q))))),
-                ps(n) == ps2(n2))))
+            self.pair_lemma(ps, j, summand, n, ps2, j2, s2, n2)
         self._psums.append((ps, lam, n))
+        self.filter_sum_lemma(ps, j, summand, n, full_n, it, st)
         st.ghost["_psum_%d_%d" % (node.lineno, node.col_offset)] = SV(FUN, py=("psum", ps, n))
         return mk_int(ps(n))
+
+    def pair_lemma(self, ps, j, s1, n, ps2, j2, s2, n2):
+        """partial sums with pointwise equal summands below m are equal at m - instantiated at the two prefix lengths at hand
+        (so a counter invariant survives heap changes that leave the rows counted so far alone)"""
+        for m in ([n] if n.eq(n2) else [n, n2]):
+            q = z3.Int(fresh_name("q"))
+            self.sum_lemmas.append((ps.name(), ps2.name(), z3.Implies(
+                z3.And(0 <= m, z3.ForAll([q], z3.Implies(z3.And(0 <= q, q < m), z3.substitute(s1, (j, q)) == z3.substitute(s2, (j2, q))))),
+                ps(m) == ps2(m))))
+
+    def filter_sum_lemma(self, ps, j, summand, n, full_n, it, st):
+        """a sum over a list F that a filter comprehension [x for x in L if c(x)] produced equals the sum over L of the same
+        summand under the condition c (induction over L; a trusted lemma of the encoding).  Applicable when the summand depends
+        on the position only through the element F[j]."""
+        if it.ty.kind != "list" or not hasattr(self, "_filters") or os.environ.get("PYVC_NO_FILTER_LEMMA"):
+            return
+        fe = st.list_elems(it.ty, it.t)
+        fe_s = z3.simplify(fe)
+        for (fel, m, pel, pn, gi) in self._filters:
+            if not (fel.eq(fe_s) or fel.eq(fe)):
+                continue
+            jj = z3.Int(fresh_name("j"))
+            marker = z3.Const(fresh_name("elem"), fel.sort().range())
+            body = z3.substitute(z3.substitute(summand, (fe[j], marker)), (fel[j], marker))
+            # the position bounds of the filtered list hold for every j below its length
+            body = z3.substitute(body, (0 <= j, z3.BoolVal(True)), (j < full_n, z3.BoolVal(True)))
+            if any(x.eq(j) for x in self.free_consts(body)):
+                return  # the summand also depends on the position itself
+            src = z3.If(gi(jj), z3.substitute(body, (marker, pel[jj])), 0)
+            # drop the position bound of the filtered list from the summand (it held for every j < m)
+            import hashlib
+            canon = z3.substitute(src, (jj, z3.Int("__J")))
+            ps2 = z3.Function("psum_" + hashlib.md5(canon.sexpr().encode()).hexdigest()[:12], I, I)
+            q = z3.Int(fresh_name("q"))
+            st.assume(ps2(0) == 0)
+            st.assume(z3.ForAll([q], z3.Implies(z3.And(0 <= q, q < pn), ps2(q + 1) == ps2(q) + z3.substitute(src, (jj, q)))))
+            self.facts.append(z3.Implies(n == m, ps(n) == ps2(pn)))
+            for (ps3, (j3, s3), n3) in list(self._psums):
+                if ps3.eq(ps2):
+                    continue
+                self.pair_lemma(ps2, jj, src, pn, ps3, j3, s3, n3)
+            self._psums.append((ps2, (jj, src), pn))
+            self.notes.add("sum over a filtered list related to the sum over its source list (filter-sum lemma of the encoding)")
+            return
+
+    def free_consts(self, t):
+        out, seen, todo = [], set(), [t]
+        while todo:
+            x = todo.pop()
+            if x.get_id() in seen:
+                continue
+            seen.add(x.get_id())
+            if z3.is_const(x) and x.decl().kind() == z3.Z3_OP_UNINTERPRETED:
+                out.append(x)
+            elif z3.is_quantifier(x):
+                todo.append(x.body())
+            else:
+                todo.extend(x.children())
+        return out
 
     def bi_list(self, node, st, ctx):
         if not node.args:
